@@ -63,5 +63,44 @@ def main(argv):
         return 2
 
 
+def reap():
+    """Kill every process this check started and left behind (a driver that wedged, a TLC run that outlived a timeout)."""
+    me = os.getpid()
+    parent = {}
+    for d in os.listdir("/proc"):
+        if d.isdigit():
+            try:
+                f = open("/proc/%s/stat" % d).read()
+                parent[int(d)] = int(f[f.rindex(")") + 2:].split()[1])
+            except Exception:
+                pass
+    todo, victims = [me], []
+    while todo:
+        x = todo.pop()
+        for c, pp in parent.items():
+            if pp == x and c != me:
+                victims.append(c)
+                todo.append(c)
+    for v in victims:
+        try:
+            os.kill(v, 9)
+        except Exception:
+            pass
+
+
+def on_term(signum, frame):
+    reap()
+    os._exit(2)
+
+
 if __name__ == "__main__":
-    sys.exit(main(sys.argv[1:]))
+    import signal
+    signal.signal(signal.SIGTERM, on_term)
+    rc = 2
+    try:
+        rc = main(sys.argv[1:])
+    finally:
+        sys.stdout.flush()
+        sys.stderr.flush()
+        reap()
+    sys.exit(rc)
